@@ -46,6 +46,14 @@ def define_probe(state):
             self.z = Algeb(info="iterative init", v_str="1.0", v_iter="z * z - (%d + v)" % I, e_str="kz - z")
             self.p = Algeb(info="iterative pair", v_str="1.0 + 0 * q", v_iter="p - q - %d" % J, e_str="kp - p")
             self.q = Algeb(info="iterative pair", v_str="1.0 + 0 * p", v_iter="p + q - (3 + %d)" % J, e_str="kq - q")
+            # two variables whose declaration order is a knob: code generated for the other order delivers their
+            # residuals to the wrong variable
+            if state.get("order", 0) % 2 == 0:
+                self.w1 = Algeb(info="order probe", v_str="1.0", e_str="3 * ka - w1")
+                self.w2 = Algeb(info="order probe", v_str="1.0", e_str="5 * ka - w2")
+            else:
+                self.w2 = Algeb(info="order probe", v_str="1.0", e_str="5 * ka - w2")
+                self.w1 = Algeb(info="order probe", v_str="1.0", e_str="3 * ka - w1")
             self.kz = PostInitService(v_str="z")
             self.kp = PostInitService(v_str="p")
             self.kq = PostInitService(v_str="q")
@@ -67,7 +75,7 @@ def expected_values(state, v=1.0, ka=2.0, kb=0.5):
     y0 = ksv * v + state["v"] * kb
     gy = ksv * v + state["e"] * kb - y0
     z0 = (state["iter"] + v) ** 0.5
-    return dict(ksv=ksv, y0=y0, gy_at_init=gy, z0=z0, p0=1.5 + state["iter2"], q0=1.5, ae=state["ext"] * kb)
+    return dict(ksv=ksv, y0=y0, gy_at_init=gy, z0=z0, p0=1.5 + state["iter2"], q0=1.5, ae=state["ext"] * kb, gw1=3 * ka - 1.0, gw2=5 * ka - 1.0)
 
 
 def main():
@@ -123,7 +131,7 @@ def main():
         ss.PFlow.fg_update()
         gy = float(ss.dae.g[ss.VProbe.y.a[0]])
         out.update(y0=y0, z0=z0, gy=gy, ksv=float(ss.VProbe.ksv.v[0]), p0=float(ss.VProbe.p.v[0]), q0=float(ss.VProbe.q.v[0]),
-                   ae=float(ss.VProbe.a.e[0]))
+                   ae=float(ss.VProbe.a.e[0]), gw1=float(ss.dae.g[ss.VProbe.w1.a[0]]), gw2=float(ss.dae.g[ss.VProbe.w2.a[0]]))
     except Exception as ex:
         out["raised"] = True
         import traceback
